@@ -1,5 +1,6 @@
 import NloptModel.Props.Wrap
 import NloptModel.Props.C14
+import NloptModel.Generated.AlgLists
 /-!
 # C09 — ill-posed calls are rejected without side effects
 
@@ -65,5 +66,20 @@ theorem null_handle_rejected (A : Arith) (w : World) (op : Op) (h : Op.returnsCo
 /-- non-vacuity -/
 example : (applyOpRaw C14.arithTriv C14.w1 (.setLb none (some [F64.one, F64.one]))).2.1 = .code rINVALID := by decide
 example : (applyOpRaw C14.arithTriv C14.w1 (.addCon none false 0 true 1 0 7 none)).2.1 = .code rSUCCESS := by decide
+
+/-- which algorithms refuse an unbounded box is decided by the `finite_domain` calls in the dispatch of nlopt_optimize_ (regenerated
+    list `finiteDomainAlgs`): exactly the global algorithms (every enum name beginning with `NLOPT_G`) -/
+def globalAlgNames : List String :=
+  ["NLOPT_GN_DIRECT", "NLOPT_GN_DIRECT_L", "NLOPT_GN_DIRECT_L_RAND", "NLOPT_GN_DIRECT_NOSCAL", "NLOPT_GN_DIRECT_L_NOSCAL",
+   "NLOPT_GN_DIRECT_L_RAND_NOSCAL", "NLOPT_GN_ORIG_DIRECT", "NLOPT_GN_ORIG_DIRECT_L", "NLOPT_GD_STOGO", "NLOPT_GD_STOGO_RAND",
+   "NLOPT_GN_CRS2_LM", "NLOPT_GN_MLSL", "NLOPT_GD_MLSL", "NLOPT_GN_MLSL_LDS", "NLOPT_GD_MLSL_LDS", "NLOPT_GN_ISRES",
+   "NLOPT_G_MLSL", "NLOPT_G_MLSL_LDS", "NLOPT_GN_ESCH", "NLOPT_GN_AGS"]
+
+theorem finite_domain_list_is_the_global_algorithms :
+    Gen.finiteDomainAlgs.map (fun i => Gen.algNames.getD i "?") = globalAlgNames := by decide
+
+/-- and exactly the algorithms that cannot run without a subsidiary optimizer are refused without one -/
+theorem need_local_list : Gen.needLocalAlgs.map (fun i => Gen.algNames.getD i "?") =
+    ["NLOPT_AUGLAG", "NLOPT_AUGLAG_EQ", "NLOPT_G_MLSL", "NLOPT_G_MLSL_LDS"] := by decide
 
 end Nlopt.C09
